@@ -292,3 +292,140 @@ theorem classInv_foldl (ms : List Nat) (st : Bridging × List Nat) (h : ClassInv
     exact ⟨hdisj x (by simp [hx]), fun hh => hnd.1 (hh ▸ hx)⟩
 
 end I2N.Index
+
+namespace I2N.Index
+
+/-! ### the all-pairs discipline of `intertest_setup.update`
+`for node1 in nodes: for node2 in nodes: if equivalent and node1 != node2: node1.bridge_with_node(node2)` -/
+
+theorem bridge_noop (b : Bridging) (a c : Nat) (h : a = c ∨ b.isBridged a c = true) : b.bridge a c = b := by
+  unfold Bridging.bridge
+  rcases h with h | h
+  · simp [h]
+  · simp [h]
+
+theorem bridgeWithAll_noop (b : Bridging) (a : Nat) (l : List Nat) (h : ∀ c ∈ l, a = c ∨ b.isBridged a c = true) :
+    bridgeWithAll b a l = b := by
+  induction l with
+  | nil => rfl
+  | cons c r ih =>
+    simp only [bridgeWithAll, List.foldl_cons]
+    rw [bridge_noop b a c (h c (by simp))]
+    exact ih (fun d hd => h d (by simp [hd]))
+
+theorem bridgeWithAll_append (b : Bridging) (a : Nat) (l1 l2 : List Nat) :
+    bridgeWithAll b a (l1 ++ l2) = bridgeWithAll (bridgeWithAll b a l1) a l2 := by
+  simp [bridgeWithAll, List.foldl_append]
+
+/-- one pass of the all-pairs loop for node `a` (inner loop over all nodes of the class) -/
+def pairsStep (ms : List Nat) (b : Bridging) (a : Nat) : Bridging := bridgeWithAll b a ms
+
+def allPairs (ms : List Nat) (b : Bridging) : Bridging := ms.foldl (pairsStep ms) b
+
+/-- invariant of the outer loop after the nodes `done` were processed (`ms = done ++ rest`) -/
+structure PairsInv (done rest : List Nat) (b : Bridging) : Prop where
+  linked : ∀ x ∈ done, ∀ y ∈ done ++ rest, x ≠ y → b.isBridged x y = true ∧ b.isBridged y x = true
+  only : ∀ x y, b.isBridged x y = true → (x ∈ done ∨ y ∈ done)
+  regRest : ∀ y ∈ rest, b.reg y = y
+  regDone : ∀ x ∈ done, b.reg x = (done ++ rest).getLast?.getD x
+
+theorem pairsInv_step (done : List Nat) (a : Nat) (rest : List Nat) (b : Bridging)
+    (hnd : (done ++ a :: rest).Nodup) (h : PairsInv done (a :: rest) b) :
+    PairsInv (done ++ [a]) rest (pairsStep (done ++ a :: rest) b a) := by
+  have hnd' := hnd
+  rw [List.nodup_append] at hnd
+  obtain ⟨hd, har, hdisj⟩ := hnd
+  rw [List.nodup_cons] at har
+  have ha_done : a ∉ done := fun hx => hdisj a hx a (by simp) rfl
+  -- bridging with the processed nodes and with itself does nothing
+  have hnoop : bridgeWithAll b a (done ++ [a]) = b := by
+    apply bridgeWithAll_noop
+    intro c hc
+    simp only [List.mem_append, List.mem_singleton] at hc
+    rcases hc with hc | hc
+    · right
+      have hca : c ≠ a := fun e => ha_done (e ▸ hc)
+      exact (h.linked c hc a (by simp) hca).2
+    · left; exact hc.symm
+  have hsplit : pairsStep (done ++ a :: rest) b a = bridgeWithAll b a rest := by
+    unfold pairsStep
+    have : done ++ a :: rest = (done ++ [a]) ++ rest := by simp
+    rw [this, bridgeWithAll_append, hnoop]
+  rw [hsplit]
+  have hfresh : ∀ c ∈ rest, b.isBridged a c = false := by
+    intro c hc
+    cases hb : b.isBridged a c
+    · rfl
+    · exfalso
+      rcases h.only a c hb with h1 | h1
+      · exact ha_done h1
+      · exact hdisj c h1 c (by simp [hc]) rfl
+  obtain ⟨s1, s2, s3⟩ := bridgeWithAll_spec b a rest har.2 har.1 hfresh
+  refine ⟨?_, ?_, ?_, ?_⟩
+  · intro x hx y hy hxy
+    simp only [List.mem_append, List.mem_singleton] at hx
+    have hy' : y ∈ done ++ a :: rest := by
+      simp only [List.append_assoc, List.singleton_append] at hy; exact hy
+    rw [s3, s3]
+    rcases hx with hx | hx
+    · have := h.linked x hx y hy' hxy
+      simp [this.1, this.2]
+    · subst hx
+      -- y is processed earlier (linked by the invariant) or comes later (linked now)
+      simp only [List.mem_append, List.mem_cons] at hy'
+      rcases hy' with hy1 | hy1 | hy1
+      · have := h.linked y hy1 x (by simp) (Ne.symm hxy)
+        simp [this.1, this.2]
+      · exact absurd hy1.symm hxy
+      · simp [hy1]
+  · intro x y hxy
+    rw [s3] at hxy
+    simp only [Bool.or_eq_true, Bool.and_eq_true, beq_iff_eq, List.contains_eq_mem, decide_eq_true_eq] at hxy
+    simp only [List.mem_append, List.mem_singleton]
+    rcases hxy with (hxy | hxy) | hxy
+    · rcases h.only x y hxy with h1 | h1
+      · exact Or.inl (Or.inl h1)
+      · exact Or.inr (Or.inl h1)
+    · exact Or.inl (Or.inr hxy.1)
+    · exact Or.inr (Or.inr hxy.1)
+  · intro y hy
+    have hya : y ≠ a := fun e => har.1 (e ▸ hy)
+    rw [s1 y hya]
+    exact h.regRest y (by simp [hy])
+  · intro x hx
+    simp only [List.mem_append, List.mem_singleton] at hx
+    have hlast : ((done ++ [a]) ++ rest).getLast? = (done ++ a :: rest).getLast? := by simp
+    rw [hlast]
+    rcases hx with hx | hx
+    · have hxa : x ≠ a := fun e => ha_done (e ▸ hx)
+      rw [s1 x hxa]
+      exact h.regDone x hx
+    · subst hx
+      rw [s2]
+      cases hr : rest.getLast? with
+      | none =>
+        have : rest = [] := by simpa using hr
+        subst this
+        simp only [List.getLast?_append, List.getLast?_cons_cons, List.getLast?_singleton]
+        simp [h.regRest x (by simp)]
+      | some d =>
+        have hdm : d ∈ rest := List.mem_of_getLast? hr
+        simp only
+        rw [h.regRest d (by simp [hdm])]
+        have : (done ++ x :: rest).getLast? = some d := by
+          rw [List.getLast?_append]
+          simp [List.getLast?_cons, hr]
+        simp [this]
+
+theorem pairsInv_foldl (ms : List Nat) (hnd : ms.Nodup) (done rest : List Nat) (hms : ms = done ++ rest) (b : Bridging)
+    (h : PairsInv done rest b) : PairsInv ms [] (rest.foldl (pairsStep ms) b) := by
+  induction rest generalizing done b with
+  | nil => simpa [hms] using h
+  | cons a r ih =>
+    simp only [List.foldl_cons]
+    have hms' : ms = (done ++ [a]) ++ r := by simp [hms]
+    apply ih (done ++ [a]) hms'
+    have := pairsInv_step done a r b (hms ▸ hnd) h
+    rw [hms]; exact this
+
+end I2N.Index
